@@ -1590,6 +1590,11 @@ class _Builder:
             for _ in range(50):
                 a = ch.cos.integer(1000, 9990)
                 n = ch.choice([1, 2, 3, 5, 10, 100])
+                # often right behind the previous reserved range of the closure (also one of another file): adjacent
+                # ranges, each legal on its own, add up to runs of more than 100 consecutive ids
+                prev_end = getattr(self, "_last_reserved_end", None)
+                if prev_end is not None and prev_end + 1 < 9990 and _ < 3 and ch.cos.chance(0.5):
+                    a = prev_end + 1
                 ids = list(range(a, min(a + n, 10000)))
                 if not any(i in self.msg_ids for i in ids):
                     break
@@ -1597,6 +1602,7 @@ class _Builder:
                 continue
             self.msg_ids.update(ids)
             b = ids[-1]
+            self._last_reserved_end = b
             if how == "dash":
                 text = ch.cos.choice([f"{a} - {b}", f"{a}-{b}", f"{a} -{b}"])
                 flags.append("reserved-range-dash")
